@@ -85,6 +85,51 @@ theorem pos_same_bytes_iff (newer : Bool) (x y z x' y' z' : Int) :
     have hN : Pos.posWord newer x y z = Pos.posWord newer x' y' z' := by exact_mod_cast hI
     rw [Pos.encPos_eq, Pos.encPos_eq, hN]
 
+/-! ### `ChunkSectionPos` (22/22/20 bits) outside its ranges -/
+
+/-- Two's-complement wrap into `[-2^21, 2^21)`. -/
+def wrap22 (v : Int) : Int := (v + 2 ^ 21) % 2 ^ 22 - 2 ^ 21
+/-- Two's-complement wrap into `[-2^19, 2^19)`. -/
+def wrap20 (v : Int) : Int := (v + 2 ^ 19) % 2 ^ 20 - 2 ^ 19
+
+/-- For ALL integers the section-position encoder never fails and the value read back is each
+coordinate wrapped into its signed range. -/
+theorem section_wraps (x y z : Int) (rest : Bytes) :
+    ∃ w, encSecPos x y z = .ok w ∧
+      decSecPos (w ++ rest) = .ok ((wrap22 x, wrap20 y, wrap22 z), rest) := by
+  obtain ⟨w, hw, hlen, _, hval⟩ := C04.section_layout x y z
+  obtain ⟨x', y', z', hdec, hx1, hx2, hy1, hy2, hz1, hz2, henc'⟩ := C04.section_dec_total w rest hlen
+  obtain ⟨w', hw', _, _, hval'⟩ := C04.section_layout x' y' z'
+  have hww : w' = w := by rw [henc'] at hw'; cases hw'; rfl
+  subst hww
+  rw [hval] at hval'
+  have key : x' = wrap22 x ∧ y' = wrap20 y ∧ z' = wrap22 z := by
+    unfold wrap22 wrap20; omega
+  obtain ⟨rfl, rfl, rfl⟩ := key
+  exact ⟨w', hw, hdec⟩
+
+/-- The ranges of `C04.section_rt` are exact. -/
+theorem section_rt_iff_in_range (x y z : Int) (rest : Bytes) :
+    (∃ w, encSecPos x y z = .ok w ∧ decSecPos (w ++ rest) = .ok ((x, y, z), rest)) ↔
+      ((-2 ^ 21 ≤ x ∧ x < 2 ^ 21) ∧ (-2 ^ 19 ≤ y ∧ y < 2 ^ 19) ∧ (-2 ^ 21 ≤ z ∧ z < 2 ^ 21)) := by
+  obtain ⟨w, hw, hd⟩ := section_wraps x y z rest
+  constructor
+  · rintro ⟨w2, hw2, hd2⟩
+    rw [hw] at hw2; cases hw2
+    rw [hd] at hd2
+    injection hd2 with h
+    injection h with h1 _
+    injection h1 with hx h2
+    injection h2 with hy hz
+    unfold wrap22 at hx hz; unfold wrap20 at hy
+    omega
+  · rintro ⟨hx, hy, hz⟩
+    refine ⟨w, hw, ?_⟩
+    have e1 : wrap22 x = x := by unfold wrap22; omega
+    have e2 : wrap20 y = y := by unfold wrap20; omega
+    have e3 : wrap22 z = z := by unfold wrap22; omega
+    rw [hd, e1, e2, e3]
+
 -- non-vacuity / concrete witnesses
 example : wrap26 (2 ^ 25) = -2 ^ 25 ∧ wrap12 2048 = -2048 ∧ wrap26 (-2 ^ 25 - 1) = 2 ^ 25 - 1 := by
   decide +kernel
@@ -92,6 +137,13 @@ example : ∃ w, encPos true (2 ^ 25) 2048 (-1) = .ok w ∧
     decPos true (w ++ [9]) = .ok ((-2 ^ 25, -2048, -1), [9]) := by
   have h := pos_wraps true (2 ^ 25) 2048 (-1) [9]
   have e : wrap26 (2 ^ 25) = -2 ^ 25 ∧ wrap12 2048 = -2048 ∧ wrap26 (-1) = -1 := by decide +kernel
+  rw [e.1, e.2.1, e.2.2] at h
+  exact h
+example : ∃ w, encSecPos (2 ^ 21) (-2 ^ 19 - 1) 3 = .ok w ∧
+    decSecPos (w ++ [9]) = .ok ((-2 ^ 21, 2 ^ 19 - 1, 3), [9]) := by
+  have h := section_wraps (2 ^ 21) (-2 ^ 19 - 1) 3 [9]
+  have e : wrap22 (2 ^ 21) = -2 ^ 21 ∧ wrap20 (-2 ^ 19 - 1) = 2 ^ 19 - 1 ∧ wrap22 3 = 3 := by
+    decide +kernel
   rw [e.1, e.2.1, e.2.2] at h
   exact h
 example : encPos false 5 6 7 = encPos false (5 + 2 ^ 26) (6 - 2 ^ 12) 7 :=
